@@ -1058,7 +1058,7 @@ Print Assumptions C15_reachable_SClone_disjoint.
    the hypotheses, and what the clone then looks like: registers 0 and 1 have no
    identity in common *)
 Example C15_example_reachable :
-  let sc := {| sc_adv := true; sc_seed := 2; sc_fk := 0; sc_fa := 0 |} in
+  let sc := {| sc_adv := true; sc_seed := 6; sc_fk := 0; sc_fa := 0 |} in
   let ops := [OInsert 0 (mk 1 5) (mv 2 7); OInsert 0 (mk 3 6) (mv 4 8); OEntry 0 (mk 5 7) 3 (mv 6 0);
               ORemove 0 (QCls 5)] in
   Forall safe_op ops /\
